@@ -4,7 +4,7 @@ from itertools import combinations, product
 
 from mc.ref.discrete import RefFactor, assignments
 
-LAYOUTS = ["edge", "edge+unary", "dup", "clique"]
+LAYOUTS = ["edge", "edge+unary", "dup", "twin", "clique"]
 
 
 def max_cliques(n, edges):
@@ -36,6 +36,11 @@ def ref_mn(n, edges, card, layout, salt=0):
     if layout == "dup" and facs:
         facs.append(RefFactor(facs[0].vars, card, dict(facs[0].table)))
         # and a second factor with equal VALUES on another scope of the same shape if there is one
+    if layout == "twin" and facs:
+        # a second, DIFFERENT factor over the scope of the first one (listed in reversed axis order)
+        f0 = facs[0]
+        rv = tuple(reversed(f0.vars))
+        facs.append(RefFactor(rv, card, {tuple(reversed(k)): F(2 + ((5 * j + 1) % 9)) for j, k in enumerate(sorted(f0.table))}))
     for v in range(n):
         if not any(v in f.vars for f in facs):
             facs.append(RefFactor((v,), card, {(s,): F(1 + s) for s in range(card[v])}))
